@@ -143,11 +143,16 @@ where
   let exe = std::env::current_exe().expect("current_exe");
   let tmpdir = std::env::temp_dir().join(format!("vcheck-{}-{}", args.id, std::process::id()));
   let _ = std::fs::create_dir_all(&tmpdir);
+  // replay: a single case, a single shard
+  let (ncases, nshards, replay_from) = match crate::replay_index(args) {
+    Some(rc) => (rc + 1, 1usize, rc),
+    None => (ncases, nshards, 0),
+  };
   let per = (ncases + nshards as u64 - 1) / nshards as u64;
   let total = Mutex::new(Acc::default());
   std::thread::scope(|s| {
     for k in 0..nshards {
-      let from0 = k as u64 * per;
+      let from0 = (k as u64 * per).max(replay_from);
       let to = ((k as u64 + 1) * per).min(ncases);
       if from0 >= to {
         continue;
@@ -165,6 +170,7 @@ where
             .arg("--tier")
             .arg(&args.tier)
             .args(args.extra.iter())
+            .args(args.replay.iter().flat_map(|p| ["--replay".to_string(), p.clone()]))
             .arg("--shard-range")
             .arg(from.to_string())
             .arg(to.to_string())
